@@ -39,6 +39,7 @@ def well_formed(obj, T):
     return a[0] != 'bad', a
 
 
+import itertools
 CONSTRAINED = None
 
 
@@ -132,10 +133,43 @@ def run(ctx):
                     if not good:
                         ctx.prop_fail('decoder returned a value violating the subtype constraint of %s' % name,
                                       {'decoder': cdc, 'type': name, 'bytes': data.hex()}, finding=fid if fid == 'F13' else None)
+    # component-presence constraints (WITH COMPONENTS): SEQUENCE and SET of three OPTIONAL members of distinct tags under
+    # every combination of PRESENT / ABSENT / unconstrained per member; every subset of the members on the wire (SET: also
+    # in reverse order), definite and indefinite: whatever a decoder returns satisfies the constraint, which is evaluated
+    # here from the wire subset alone, and the same codec's encoder accepts it (finding F67: constraints of records were
+    # never evaluated)
+    pm = [('a', univ.Integer(), univ.Integer(7)), ('b', univ.OctetString(), univ.OctetString(b'pq')), ('c', univ.Boolean(), univ.Boolean(True))]
+    pencs = [I.run_encode('BER', v)[1] for _, _, v in pm]
+    for container, tagoct in ((univ.Sequence, 0x30), (univ.Set, 0x31)):
+        for pattern in itertools.product('PA-', repeat=3):
+            if pattern == ('-', '-', '-'): continue
+            consts = [(nm, constraint.ComponentPresentConstraint() if w == 'P' else constraint.ComponentAbsentConstraint())
+                      for (nm, _, _), w in zip(pm, pattern) if w != '-']
+            spec = container(componentType=namedtype.NamedTypes(*[namedtype.OptionalNamedType(nm, t) for nm, t, _ in pm])).subtype(
+                subtypeSpec=constraint.WithComponentsConstraint(*consts))
+            for r in range(0, 4):
+                for subset in itertools.combinations(range(3), r):
+                    holds = all((w != 'P' or i in subset) and (w != 'A' or i not in subset) for i, w in enumerate(pattern))
+                    orders = [subset, tuple(reversed(subset))] if container is univ.Set and r > 1 else [subset]
+                    for order in orders:
+                        body = b''.join(pencs[i] for i in order)
+                        for data, cdcs in ((bytes([tagoct, len(body)]) + body, ('BER', 'DER')), (bytes([tagoct, 0x80]) + body + b'\x00\x00', ('BER', 'CER'))):
+                            for cdc in cdcs:
+                                d = I.run_decode(cdc, data, asn1Spec=spec)
+                                ctx.case(('presence-constraint', container.__name__, pattern, order, data[1] == 0x80, cdc), True)
+                                m = {'decoder': cdc, 'type': '%s {a INTEGER OPTIONAL, b OCTET STRING OPTIONAL, c BOOLEAN OPTIONAL} (WITH COMPONENTS %s)' % (
+                                    container.__name__, ''.join(pattern)), 'bytes': data.hex()}
+                                if d[0] == 'ok' and not holds:
+                                    ctx.prop_fail('decoder returned a value violating the component-presence constraint of its type', m)
+                                elif d[0] == 'ok':
+                                    r2 = I.run_encode(cdc, d[1])
+                                    if r2[0] != 'ok':
+                                        ctx.prop_fail('the %s encoder refuses a value its decoder accepted' % cdc, m)
+                                elif d[0] == 'err' and holds and not (cdc == 'DER' and False):
+                                    ctx.prop_fail('decoder refuses a valid encoding whose value satisfies the component-presence constraint', m)
     # mandatory members, systematically: SET and SEQUENCE types with 2-4 mandatory members of distinct tags; every
     # proper subset of the members, for SET in every arrival order, definite and indefinite: whatever the decoder
     # returns must hold every mandatory member (it should refuse)
-    import itertools
     leaf = [(univ.Integer(), univ.Integer(5)), (univ.Boolean(), univ.Boolean(True)), (univ.OctetString(), univ.OctetString(b'abc')),
             (univ.Null(), univ.Null('')), (univ.ObjectIdentifier(), univ.ObjectIdentifier((1, 2, 3)))]
     for k in (2, 3, 4):
